@@ -120,6 +120,10 @@ def sp_lines(ctx, label):
 
 
 def run(ctx):
+    import clilib
+    clilib.stream(ctx, "cliverdict", gen.cliverdict_lines(ctx.rng.fork("cliverdict"), 4, 2, 400 if ctx.quick else 8000, (0, 1), 6, 6, 36, False),
+                  "cmr-series-parallel [-b]: verdict line vs. the definition-level oracle on the matrix parsed from the input bytes",
+                  lambda c: gen.CLIVERDICT_CODES.get(c, str(c)))
     ctx.stream("leaf", gen.leaf_lines(ctx.rng.fork("leaf"), (2,), 2000 if ctx.quick else 100000),
                "leaf functions (projectSignedHash): compiled C vs. the definition translated from the C text vs. the specification",
                describe=lambda c: gen.LEAF_CODES.get(c, str(c)))
